@@ -190,7 +190,7 @@ def run(chk: core.Check):
         "oracles (which include the structure clauses). Non-trivial = at least one detection; distinct by case hash"
     )
     rng = core.rng_for(chk.seed, "C04/structured")
-    chk.run_stream("structured", [gen_case(rng, 40) for _ in range(N)], impl, oracle=oracle, site="predict",
+    chk.run_stream("structured", core.Gen(gen_case, rng, 40, N), impl, oracle=oracle, site="predict",
                    nontrivial=lambda c, r: r.get("outcome") == "ok" and bool(r.get("cps") or r.get("ivs")),
                    describe=lambda c: {k: v for k, v in c.items() if k != "X"} | {"X[:4]": c["X"][:4]})
     skipf = lambda c, r: r["outcome"][5:] if r["outcome"].startswith("skip:") else None  # noqa: E731
